@@ -62,6 +62,12 @@ theorem every_variable_a_step_uses_is_declared {env : Pl.Env} {fuel : Nat} {oper
       ∀ f ∈ s.frags, ∀ v ∈ Pl.usedSels f.sub, v ∈ Pl.builtVars s :=
   fun s hs => Pl.planOperation_vars h s hs
 
+/-- the operation built for a follow-up step is `node(id: $id) { ... on T { … } }` and declares `$id`; the one built
+    for a root step is the step's selection with the step's variables -/
+theorem follow_up_operations_declare_the_join_id (s : Pl.Step) (h : Pl.isRootType s.parentType = false) :
+    "id" ∈ Pl.builtVars s ∧ ∃ sub, Pl.builtSelection s = [.field "node" "node" "(id: $id)" ["id"] [] "Node" sub] :=
+  Pl.dependent_step_declares_id s h
+
 /-- non-vacuity of the plan theorem: `{ me { firstName lastName } }` with `lastName` served elsewhere plans
     into a root step and one dependent step, and the dependent step holds `lastName` only -/
 def exEnv : Pl.Env :=
